@@ -115,6 +115,38 @@ def run(ctx):
     for need in ("title", "id_string", "version", "instance_xmlns", "prefix", "delimiter", "attribute", "style", "submission_url", "public_key", "auto_send", "auto_delete",
                  "namespaces", "omit_instanceID", "instance_name", "default_language", "name"):
         r2.check(need in slots, f"Survey slot {need}", "documented setting is a Survey field (so the column is accepted and stored)", "pyxform/survey.py")
+    # the settings sheet's headers are normalised (case, spacing) against the column set handed to the header grouping at
+    # the settings call site: every documented setting written with capitals / spaces must come out as its own column
+    w2j2 = ctx.func("pyxform.xls2json:workbook_to_json", "C11.R2")
+    scall = next((c for c in walk_own(w2j2.node) if isinstance(c, ast.Call) and call_name(c) == "dealias_and_group_headers"
+                  and kw(c, "sheet_name") is not None and const_str(ctx, w2j2.module, kw(c, "sheet_name")) == (True, "settings")), None)
+    if scall is None or kw(scall, "header_columns") is None:
+        r2.fail("settings:header columns", "the settings sheet goes through the header grouping with an explicit column set", w2j2.loc())
+    else:
+        itc = ctx.interp("C11.R2")
+        itc.reset([])
+        env_c = {}
+        for n_ in ast.walk(kw(scall, "header_columns")):
+            if isinstance(n_, ast.Name) and n_.id not in env_c:
+                for m_ in repo.modules.values():
+                    if n_.id in m_.classes or n_.id in m_.assigns:
+                        v_ = itc.module_global(m_, n_.id)
+                        env_c[n_.id] = v_
+                        break
+        try:
+            cols_c = set(itc.iterate(itc.eval(kw(scall, "header_columns"), env_c, w2j2.module), scall))
+        except Raised as e:
+            cols_c = None
+        ph_c = ctx.func("pyxform.parsing.sheet_headers:process_header", "C11.R2")
+        for canon in ("name", "title", "id_string", "version", "style", "default_language", "public_key", "submission_url", "instance_name", "namespaces", "auto_send", "auto_delete"):
+            for spelled in (canon.upper(), canon.capitalize(), " " + canon.replace("_", " ").title() + " "):
+                itc.reset([])
+                try:
+                    got_c = itc.call_function(ph_c, [], {"header": spelled, "use_double_colon": False, "header_aliases": sh, "header_columns": cols_c or set()}, None, ph_c.node)
+                    got_name = got_c[1][0] if isinstance(got_c, tuple) and got_c[1] else None
+                except Raised as e:
+                    got_name = f"raises {e.exc_name}"
+                r2.check(got_name == canon, f"settings header {spelled!r}", f"is read as the `{canon}` setting", w2j2.loc(scall), why_fail=f"read as {got_name!r} (the column set at the call site lacks `{canon}`)" if cols_c is not None and canon not in cols_c else f"read as {got_name!r}")
     rules.append(r2)
 
     # ------------------------------------------------------------------ R3
